@@ -256,7 +256,11 @@ func c08(c *Ctx) {
 			if r.Intn(2) == 0 {
 				hist = append(hist, hex.EncodeToString([]byte(deepRejected())))
 			} else {
-				hist = append(hist, hex.EncodeToString([]byte(inputs[r.Intn(len(inputs))])))
+				in := inputs[r.Intn(len(inputs))]
+				if len(in) > 4096 {
+					in = in[:4096] // long inputs are parsed in the main stream; a history is many parses
+				}
+				hist = append(hist, hex.EncodeToString([]byte(in)))
 			}
 		}
 		ps := append([]string{}, probesFixed...)
@@ -273,7 +277,11 @@ func c08(c *Ctx) {
 	for in, o := range first {
 		byInput[inputs[in]] = o
 	}
-	for i, line := range h.RunJobs(hjobs, 12) {
+	savedTimeout := h.CaseTimeout
+	h.CaseTimeout = 180e9 // a history is 40..120 parses, some of them deep: not a single case
+	histReplies := h.RunJobs(hjobs, 12)
+	h.CaseTimeout = savedTimeout
+	for i, line := range histReplies {
 		cs := map[string]any{"kind": "parsehist", "payload": hjobs[i].Payload}
 		b, err := hex.DecodeString(line)
 		var rep parseHistReply
